@@ -59,3 +59,19 @@ func sortKeys[K comparable](keys []K) {
 		copy(keys, out)
 	}
 }
+
+// RangeMap replaces `range m` for maps: keys in deterministic seeded order;
+// entries deleted during iteration are skipped, as the spec allows.
+func RangeMap[M ~map[K]V, K comparable, V any](m M) func(yield func(K, V) bool) {
+	return func(yield func(K, V) bool) {
+		for _, k := range MapKeys(m) {
+			v, ok := m[k]
+			if !ok {
+				continue
+			}
+			if !yield(k, v) {
+				return
+			}
+		}
+	}
+}
